@@ -43,6 +43,10 @@ class chunks(object):
             decMax = 90.0
         self.decBounds = decMin + ((decMax - decMin) * np.arange(self.nDec + 1, dtype='d'))/float(self.nDec)
         #
+        # Rounding must not move the last boundary beyond decMax (the pole).
+        #
+        self.decBounds[self.nDec] = decMax
+        #
         # Find ra offset which minimizes the range in ra (this should take care
         # of the case that ra crosses zero in some parts
         #
